@@ -324,6 +324,55 @@ pub fn oracle(case: &Case, spc: &SpCase, res: &SpResult) -> (Option<(String, Str
             }
         }
         if own_fins.len() >= 2 { labels.insert("fin_retransmitted"); }
+        // "is retransmitted on timeout until acknowledged or the connection gives up": after a FIN transmission, a
+        // stretch in which the connection task lives, nothing at all is delivered to the socket and no data segment
+        // is outstanding cannot outlast the retransmission timeout without another FIN transmission. The timeout is
+        // not modelled exactly, only bounded from above:
+        //  * after a FIN retransmission that followed its predecessor by g with nothing delivered in between: 2 g
+        //  * otherwise max(initial RTO, 5 x largest possible RTT sample + 10 ms) (RFC 6298: srtt <= largest sample,
+        //    rttvar <= largest sample), doubled once per retransmission of anything emitted so far
+        {
+            let init_rto = librqbit_utp::verif_hooks::RttEstimator::default().retransmission_timeout().as_micros() as u64;
+            // largest possible RTT sample: delivery of a datagram minus the first transmission of the oldest own
+            // packet (SYN / SYN-ACK, DATA, FIN) that nothing delivered earlier could have acknowledged
+            let mut s_max = 0u64;
+            {
+                let mut oldest_open: Option<u64> = tx.first().map(|t| t.t_us);
+                let mut seen_seq: BTreeSet<u16> = BTreeSet::new();
+                for r in res.log.iter().filter(|r| r.pkt.is_some()) {
+                    let p = r.pkt.as_ref().unwrap();
+                    if r.src == sock {
+                        if matches!(p.ptype, refparse::ST_DATA | refparse::ST_FIN) && seen_seq.insert(p.seq) && oldest_open.is_none() { oldest_open = Some(r.t_us); }
+                    } else if r.dst == sock {
+                        if let Some(t0) = oldest_open { s_max = s_max.max(r.t_us.saturating_sub(t0)); }
+                        // whatever it acknowledged, the next sample cannot start before the next first transmission
+                        // … unless older packets stay open: keep the bound conservative by not closing on partial acks
+                        let acks_all = own_data.iter().chain(own_fins.iter()).filter(|d| d.ord < r.ord).all(|d| { let a = dist(p.ack, d.pkt.as_ref().unwrap().seq); (0..1000).contains(&a) });
+                        if acks_all && p.conn_id == res.id_to_sock && matches!(p.ptype, refparse::ST_STATE | refparse::ST_DATA | refparse::ST_FIN) { oldest_open = None; }
+                    }
+                }
+            }
+            let base = init_rto.max(200_000).max(5 * s_max + 10_000);
+            for (i, f) in own_fins.iter().enumerate() {
+                // no data outstanding: every data segment transmitted so far was acknowledged by something delivered before this FIN
+                let data_open = own_data.iter().filter(|d| d.ord < f.ord).any(|d| { let ds = d.pkt.as_ref().unwrap().seq; !rx.iter().any(|x| x.ord < f.ord && { let q = x.pkt.as_ref().unwrap(); q.conn_id == res.id_to_sock && matches!(q.ptype, refparse::ST_STATE | refparse::ST_DATA | refparse::ST_FIN) && (0..1000).contains(&dist(q.ack, ds)) }) });
+                if data_open || !established_ord.is_some_and(|o| o < f.ord) || future_ack_seen { continue; }
+                let retx_before = { let mut seen: BTreeSet<(u8, u16)> = BTreeSet::new(); tx.iter().filter(|t| t.ord <= f.ord).filter(|t| { let q = t.pkt.as_ref().unwrap(); !seen.insert((q.ptype, q.seq)) }).count() as u32 };
+                let prev_gap = if i >= 1 && !rx.iter().any(|r| r.t_us > own_fins[i - 1].t_us && r.t_us <= f.t_us) { Some(f.t_us - own_fins[i - 1].t_us) } else { None };
+                let bound = match prev_gap {
+                    Some(g) if g >= 200_000 => (2 * g).min(60_000_000),
+                    _ => base.saturating_mul(1u64 << retx_before.min(9)).min(60_000_000),
+                } + 5_000;
+                let until = f.t_us + bound;
+                let next_fin = own_fins.get(i + 1).map(|n| n.t_us);
+                let alive = end_ev.is_none_or(|e| e.t_us > until) && res.t_end_us > until;
+                let quiet = !rx.iter().any(|r| r.t_us > f.t_us && r.t_us <= until) && !rx.iter().any(|r| r.ord > f0.ord && r.t_us <= f.t_us && { let q = r.pkt.as_ref().unwrap(); q.conn_id == res.id_to_sock && (q.ptype == refparse::ST_RESET || (0..1000).contains(&dist(q.ack, fpk.seq))) });
+                if alive && quiet { labels.insert("fin_retx_due"); }
+                if alive && quiet && next_fin.is_none_or(|n| n > until) {
+                    viol!("fin-not-retransmitted", "own FIN (seq {}) transmitted at t={} us (log #{}) was not acknowledged, nothing was delivered to the socket and no data was outstanding, the connection task lived on beyond t={} us, yet no retransmission followed within {} us (upper bound of the retransmission timeout: {})", fpk.seq, f.t_us, f.idx, until, bound, match prev_gap { Some(g) if g >= 200_000 => format!("twice the previous interval of {g} us"), _ => format!("max(initial {init_rto} us, 5 x largest RTT sample {s_max} us + 10 ms) x 2^{retx_before} retransmissions so far") });
+                }
+            }
+        }
         // own-initiative close: every byte accepted before the close was first-transmitted before the FIN
         if let (Some(tc), None) = (own_close_t.filter(|t| *t <= f0.t_us), &peer_fin_in_seq) {
             if !death && reset_rx.is_none() {
